@@ -11,7 +11,7 @@ TITLE = "Seeded serial simulations are reproducible"
 RULE = ("Part A (stochastic): bounded-rate event models as in C04, two different NumPy seeds, 1-4 iterations, exact or tau-leap, "
         "scalar horizon or grid. Part B (random parameters): benign ODE models whose every parameter influences the solution, with "
         "1..all parameters random, given as frozen scipy distributions or (sampler, args) with args tuple or dict (rgamma, rnorm, "
-        "runif, rexp), mixed with fixed numbers; entry point solve_determ or simulate_param with full_output=True. Oracle: same "
+        "runif, rexp, a user-written wrapper around rbeta), mixed with fixed numbers; entry point solve_determ or simulate_param with full_output=True. Oracle: same "
         "np.random.seed => bit-identical states, counts, times / mean and individual runs; mean == average of the returned runs "
         "(rtol 1e-12); different seeds => outputs differ, asserted only where a coincidence has probability < 1e-9 by construction "
         "(exact mode with >=1 event; tau mode with >=25 steps having non-zero counts; continuous parameter draws). "
@@ -59,7 +59,7 @@ def strategy(tier):
         for i, p in enumerate(m["params"]):
             if i < n_random:
                 form = draw(st.sampled_from(["frozen", "tuple", "dict"]))
-                fam = draw(st.sampled_from(["gamma", "norm", "unif", "exp"]))
+                fam = draw(st.sampled_from(["gamma", "norm", "unif", "exp", "beta"]))
                 spec.append({"form": form, "family": fam, "a": draw(S.fl(0.3, 1.2, 3)), "b": draw(S.fl(0.05, 0.3, 3))})
             else:
                 spec.append({"form": "fixed", "value": su["theta"][i]})
@@ -71,7 +71,11 @@ def strategy(tier):
 
 def _param_dict(m, spec, order):
     import scipy.stats as ss
-    from pygom.utilR import rgamma, rnorm, runif, rexp
+    from pygom.utilR import rgamma, rnorm, runif, rexp, rbeta
+
+    def rbeta1(n, shape1, shape2):
+        # a user's own sampler around the package's beta generator (which hands back a length-1 array for n=1)
+        return float(np.ravel(rbeta(n, shape1, shape2))[0])
     items = []
     for p, sp in zip(m["params"], spec):
         if sp["form"] == "fixed":
@@ -81,14 +85,15 @@ def _param_dict(m, spec, order):
         fam = sp["family"]
         if sp["form"] == "frozen":
             v = {"gamma": ss.gamma(a=4.0, scale=a / 4.0), "norm": ss.norm(loc=a + 0.5, scale=b * 0.3),
-                 "unif": ss.uniform(loc=a, scale=b), "exp": ss.expon(scale=a)}[fam]
+                 "unif": ss.uniform(loc=a, scale=b), "exp": ss.expon(scale=a), "beta": ss.beta(3.0, 3.0 / a)}[fam]
         else:
-            fn = {"gamma": rgamma, "norm": rnorm, "unif": runif, "exp": rexp}[fam]
+            fn = {"gamma": rgamma, "norm": rnorm, "unif": runif, "exp": rexp, "beta": rbeta1}[fam]
             if sp["form"] == "tuple":
-                args = {"gamma": (4.0, 4.0 / a), "norm": (a + 0.5, b * 0.3), "unif": (a, a + b), "exp": (1.0 / a,)}[fam]
+                args = {"gamma": (4.0, 4.0 / a), "norm": (a + 0.5, b * 0.3), "unif": (a, a + b), "exp": (1.0 / a,),
+                        "beta": (3.0, 3.0 / a)}[fam]
             else:
                 args = {"gamma": {"shape": 4.0, "rate": 4.0 / a}, "norm": {"mean": a + 0.5, "sd": b * 0.3},
-                        "unif": {"min": a, "max": a + b}, "exp": {"rate": 1.0 / a}}[fam]
+                        "unif": {"min": a, "max": a + b}, "exp": {"rate": 1.0 / a}, "beta": {"shape1": 3.0, "shape2": 3.0 / a}}[fam]
             v = (fn, args)
         items.append((p, v))
     return dict(items[i] for i in order)
@@ -194,7 +199,8 @@ def oracle(case, rec):
 
 def _depends_on_random_params(m, su, spec, grid):
     from pbt import refsolve
-    centre = {"gamma": lambda a, b: a, "norm": lambda a, b: a + 0.5, "unif": lambda a, b: a + 0.5 * b, "exp": lambda a, b: a}
+    centre = {"gamma": lambda a, b: a, "norm": lambda a, b: a + 0.5, "unif": lambda a, b: a + 0.5 * b, "exp": lambda a, b: a,
+              "beta": lambda a, b: a / (1.0 + a)}
     theta = [sp["value"] if sp["form"] == "fixed" else centre[sp["family"]](sp["a"], sp["b"]) for sp in spec]
     rnd = [i for i, sp in enumerate(spec) if sp["form"] != "fixed"]
     try:
